@@ -50,6 +50,12 @@ FAULT_TABLE = [
     ('I', '     ', ['ConfigError']), ('I', '\t\t\t\t\t\t', ['ConfigError']), ('I', 'x    ', ['ConfigError']), ('I', '  [1  ', ['ConfigError']),
     ('I', ' \n \n \n', ['ConfigError']), ('LGG', ['a', 'b', 'c', 'd', 'e'], ['ConfigError']), ('LGG', ['a', 'b', 'c'], ['ConfigError']),
     ('LGG', ['a', 'b', 'c', 'd', 'e', 'f'], ['ConfigError']),
+    # unbalanced AND deeply nested: still the bracket error, with its marked-up message
+    ('F', '(' * 60 + '1' + ')' * 59, ['UnbalancedBrackets']), ('F', '(' * 200 + 'x' + ')' * 199, ['UnbalancedBrackets']),
+    ('M', '[' * 80 + '1' + ']' * 79, ['UnbalancedBrackets']), ('F', '(' * 45 + '1' + ')' * 46, ['UnbalancedBrackets']),
+    # a bare string where several boxes are expected, of exactly as many characters as there are boxes
+    ('SUM', '123n', ['ConfigError']), ('SUM', 'abcd', ['ConfigError']), ('SUM2', '15', ['ConfigError']), ('SUM2', 'ab', ['ConfigError']),
+    ('L', 'ab', ['ConfigError']),
     ('FMS', '2K', ['UndefinedFunction']), ('FMS', '2kk', ['UndefinedFunction']),
     ('LNA', ['a', 'b'], ['ConfigError']), ('SLNA', 'a, b', ['ConfigError']),       # graders without any answers, called without expect
     ('IB', '<1,2]', ['InvalidInput']), ('IB', '[1,2>', ['InvalidInput']), ('IB', '|1,2|', ['InvalidInput']), ('IB', '{1,2|', ['InvalidInput']),
@@ -368,6 +374,8 @@ def run_table(ctx):
             return M.StringGrader(answers='cat', validation_pattern='[a-z]+')
         if kind == 'I':
             return M.IntervalGrader(answers='[1,2]')
+        if kind == 'SUM2':
+            return M.SumGrader(answers={'lower': '1', 'upper': '5', 'summand': 'n', 'summation_variable': 'n'}, input_positions={'lower': 1, 'upper': 2})
         if kind == 'FMS':
             return M.FormulaGrader(answers='2k', metric_suffixes=True)
         if kind == 'LNA':
